@@ -46,6 +46,11 @@ def build(tier, seed, exclude):
     if False:
         for phase in ():
             pass
+    # a lock file left behind by a process that died while holding the job's lock
+    g.cond("h_stale_lock", "wf: bool, content: int, use_async: bool", ["0 <= content <= 2"], """
+        err = EN.c12_stale_lock(T.real(wf), T.real(content), T.real(use_async))
+        return T.fail(err) if err else True
+    """, timeout=to)
     g.cond("twin_c12", "event: int", ["1 <= event <= 2"], """
         err = EN.c12(T.real(event), 2, False, False, 1)
         return False
